@@ -564,8 +564,11 @@ static void run_scenario(jval *sc)
 	}
 	fprintf(out, "{\"obs\":[");
 	for (k = 0; h && k < h->n; k++) {
+		int af0 = alloc_failed;
 		if (k) fputc(',', out);
 		exec_op(h->items[k]);
+		/* C14: optionally stop right after the call in which the allocation failure happened */
+		if (alloc_failed != af0 && j_int(cfg, "stopfault", 0)) break;
 	}
 	fprintf(out, "],\"allocs\":%ld", alloc_count);
 	/* teardown: free the buffers; every reference must be cleaned exactly once by now */
